@@ -161,6 +161,16 @@ pub fn generate(seed: u64, prop: &str) -> PoolScenario {
         cfg.wlock_cells = r.urange(2, 4);
         cfg.genesis_cells.extend((0..6).map(|_| r.range(3_000, 60_000) * SHANNONS));
     }
+    if prop == "C13" {
+        // two runs out of five: consensus limits small enough for templates to reach them, so that
+        // the block assembler's size / cycle / proposal accounting decides what fits
+        let mut rl = Rng::new(seed ^ 0xC13_11A1);
+        if rl.chance(2, 5) {
+            cfg.max_block_proposals = rl.range(1, 6);
+            cfg.max_block_bytes = *rl.pick(&[1_200u64, 1_600, 2_400, 4_000]);
+            cfg.max_block_cycles = crate::model::COST_ALWAYS_SUCCESS_VM0 * rl.range(2, 8);
+        }
+    }
     let small_pool = r.chance(1, 3);
     let pool = PoolCfg {
         max_tx_pool_size: if small_pool { r.urange(1_500, 6_000) } else { 180_000_000 },
@@ -1171,6 +1181,27 @@ impl PoolExec {
         if view.number() > self.w.cfg.w_far + 1 && view.transactions()[0].outputs().is_empty() {
             self.res.probes.inc("template_cellbase_without_output_reward_cannot_fund_cell");
         }
+        // did the template reach a consensus limit?
+        if self.w.cfg.max_block_bytes < 100_000 {
+            self.res.probes.inc("template_under_small_limits");
+            if view.data().proposals().len() as u64 == self.w.cfg.max_block_proposals {
+                self.res.probes.inc("template_at_proposal_limit");
+            }
+            let uncle_ids: usize = view.uncles().into_iter().map(|u| u.data().proposals().len()).sum();
+            let size = (view.data().as_slice().len() - 10 * uncle_ids) as u64;
+            if size + 250 > self.w.cfg.max_block_bytes {
+                self.res.probes.inc("template_within_250_bytes_of_size_limit");
+            }
+            if let Ok(i) = &model {
+                let cy = &self.w.blocks[*i].cycles;
+                if cy.iter().all(|c| c.is_some()) {
+                    let sum: u64 = cy.iter().map(|c| c.unwrap()).sum();
+                    if sum + crate::model::COST_ALWAYS_SUCCESS_VM0 > self.w.cfg.max_block_cycles {
+                        self.res.probes.inc("template_at_cycle_limit");
+                    }
+                }
+            }
+        }
         match verdict {
             Some(Ok(true)) => {
                 if on_tip {
@@ -1269,6 +1300,7 @@ impl PoolExec {
                 mutation: None,
                 plant: Vec::new(),
                 ts_mode: None,
+                fill: None,
             };
             let b = self.w.build_child(parent, &recipe);
             let v = self.w.blocks[b].view.clone();
